@@ -372,6 +372,8 @@ def witness_search(tier, seed):
              # multi-value properties whose first component is empty (a falsy value that is not "no value")
              "#DISPLAYBPM::180;#ATTACKS::TIME=1.5:LEN=2:MODS=drunk;#TITLE::t;",
              "#VERSION:0.83;#ATTACKS::;#NOTEDATA:;#DISPLAYBPM::90;#ATTACKS::a;#NOTES:0000;",
+             # SM charts with extra components: the six fields are trimmed, the extra components are kept as they are
+             "#TITLE:a;\n#NOTES: dance-single : d :Easy:1:0,0:\n0000\n: first extra \n: second\textra\t:;\n",
              # the first parameter far down the text (comments and blank lines before it), and a long file: nothing about
              # the rules depends on where in the text a parameter stands
              "// header\n" * 70 + "\n" * 30 + "#VERSION:0.83;\n#TITLE:far;\n#NOTEDATA:;\n#STEPSTYPE:x;\n#NOTES:0000;\n",
